@@ -70,6 +70,31 @@ func traceConc(o opts) error {
 		if r.Intn(3) == 0 {
 			via = "http"
 		}
+		nthreads := 3 + r.Intn(3)
+		names := []string{"x", "y"}[:1+r.Intn(2)]
+		// seed state sequentially
+		nseed := r.Intn(4)
+		for i := 0; i < nseed; i++ {
+			d.Put(su, names[0], []byte(fmt.Sprintf("seed%d", i)))
+		}
+		seedState, serr := readDisk(path, kek)
+		if serr != nil {
+			seedState = "ERR:" + hx(serr.Error())
+		} else if nseed == 0 {
+			seedState = "-"
+		}
+		// half of the histories: the server is stopped and started again between the sequential
+		// preparation and the concurrent calls (whatever it keeps in memory is rebuilt from the file)
+		restarted := false
+		if r.Intn(2) == 0 {
+			d2, err := db.Open(path, kek, aw)
+			if err != nil {
+				return err
+			}
+			d = d2
+			restarted = true
+		}
+		_ = restarted
 		var cl, clIntruder setec.Client
 		if via == "http" {
 			mux := http.NewServeMux()
@@ -99,19 +124,6 @@ func traceConc(o opts) error {
 				mux.ServeHTTP(rec, req)
 				return rec.Result(), nil
 			}}
-		}
-		nthreads := 3 + r.Intn(3)
-		names := []string{"x", "y"}[:1+r.Intn(2)]
-		// seed state sequentially
-		nseed := r.Intn(3)
-		for i := 0; i < nseed; i++ {
-			d.Put(su, names[0], []byte(fmt.Sprintf("seed%d", i)))
-		}
-		seedState, serr := readDisk(path, kek)
-		if serr != nil {
-			seedState = "ERR:" + hx(serr.Error())
-		} else if nseed == 0 {
-			seedState = "-"
 		}
 		progs := make([][]dbOp, nthreads)
 		for t := range progs {
